@@ -41,9 +41,11 @@ def generate(seed, tier):
         cs = K.harness_seed(seed, ID, i)
         cases.append(CF.gen_direct(cs, tier, allow_alg=True, rational_share=0.65))
     cli = CF.gen_cli(lambda i: K.harness_seed(seed, ID, i), NCLI[tier], tier)
-    for c in cases:
+    for c in cases:      # per-case watchdog: sympy's (EX-domain) groebner inside Polar may run for minutes
         if c["d"] != 0:
-            c["timeout"] = 40 if tier == "quick" else 60      # sympy's EX-domain groebner may run for minutes
+            c["timeout"] = 40 if tier == "quick" else 60
+        elif tier == "quick":
+            c["timeout"] = 30
     return CF.order_cases(cases, cli)
 
 
